@@ -87,7 +87,7 @@ Proof.
   induction ts as [|t ts IH]; intros s b s1 H Hi; cbn in *.
   - inversion H; subst. repeat split; auto.
   - unfold next in H. destruct (nth_error toks (cur s)) as [u|] eqn:Eu.
-    + assert (Hi' : inv (mkSt (S (cur s)) (sec s) (alt s) (on_tok u (ust s)))).
+    + assert (Hi' : inv (mkSt (S (cur s)) (sec s) (alt s) (on_tok u (ust s)) (memo s))).
       { unfold Base.inv; cbn. rewrite (ust_at_S _ _ _ Eu). now rewrite Hi. }
       destruct (N.eqb t u).
       * specialize (IH _ _ _ H Hi'). cbn in IH. exact IH.
@@ -166,11 +166,11 @@ Proof.
     destruct r1; try trivial_res H.
     + inv_pair H. ok_elim P. cbn. fin_ok.
     + err_elim P.
-      assert (Hrw : rewind s2 (save s0) = mkSt (cur s0) (sec s0) (alt s2) (ust s0)).
+      assert (Hrw : rewind s2 (save s0) = mkSt (cur s0) (sec s0) (alt s2) (ust s0) (memo s2)).
       { apply rewind_save with (ext := ext). now rewrite <- Hse. }
       rewrite Hrw in H.
       specialize (IHgs _ _ _ H). cbn in IHgs.
-      rewrite Hc. apply post_sec_eq with (s := mkSt (cur s0) (sec s0) (alt s2) (ust s0)); [cbn; auto|].
+      rewrite Hc. apply post_sec_eq with (s := mkSt (cur s0) (sec s0) (alt s2) (ust s0) (memo s2)); [cbn; auto|].
       apply IHgs; auto. unfold Base.inv in *. cbn. rewrite <- Hu, <- Hc. exact Hi.
 Qed.
 
@@ -498,8 +498,8 @@ Proof.
   { injection H as <- <-. exact I. }
   destruct (run Check until ctx s) as [r1 s2] eqn:E1. use HR E1. destruct r1; try trivial_res H.
   - inv_pair H. ok_elim P.
-    assert (Hrw : rewind (set_alt s2 (Some a0)) (save s) = mkSt (cur s) (sec s) (Some a0) (ust s)).
-    { eapply rewind_save. exact Hsec. }
+    assert (Hrw : rewind (set_alt s2 (Some a0)) (save s) = mkSt (cur s) (sec s) (Some a0) (ust s) (memo s2)).
+    { exact (rewind_save s (set_alt s2 (Some a0)) _ Hsec). }
     rewrite Hrw. cbn. do 2 eexists. split; [reflexivity|]. split; [reflexivity|]. exact Hse.
   - err_elim P. rewrite (rewind_save _ _ _ Hsec) in H.
     match type of H with context [run Check skip ctx ?st] => destruct (run Check skip ctx st) as [r2 s3] eqn:E2 end.
@@ -508,8 +508,8 @@ Proof.
     + ok_elim P2.
       destruct (run m p ctx s3) as [r3 s4] eqn:E3. use HR E3.
       assert (Hrw : forall s4 ext, sec s4 = sec s3 ++ ext ->
-                rewind (set_alt s4 None) (save s3) = mkSt (cur s3) (sec s3) None (ust s3)).
-      { intros s4' ext' Hx. eapply rewind_save. exact Hx. }
+                rewind (set_alt s4 None) (save s3) = mkSt (cur s3) (sec s3) None (ust s3) (memo s4)).
+      { intros s4' ext' Hx. exact (rewind_save s3 (set_alt s4' None) _ Hx). }
       destruct r3; try trivial_res H.
       * ok_elim P. rewrite Hsec1, leb_len_app in H. destruct ems0 as [|e0 ems0].
         -- inv_pair H. cbn. do 2 eexists. split; [reflexivity|]. stsimpl.
@@ -518,6 +518,209 @@ Proof.
       * err_elim P. rewrite (Hrw _ _ Hsec1) in H. eapply IHf in H; eauto. cbn. rewrite Hsec0, Hse, app_assoc. reflexivity.
     + inv_pair H. err_elim P2. cbn. do 2 eexists. split; [reflexivity|]. split; [reflexivity|].
       rewrite Hsec0, Hse, <- app_assoc. reflexivity.
+Qed.
+
+(* ---------- Pratt ---------- *)
+Section PrattLemmas.
+Variable m : mode.
+Variable rec : nat -> st -> outcome * st.
+Variable srec : nat -> nat -> reg -> option sres.
+Hypothesis Hrec : forall minp s r s1, rec minp s = (r, s1) -> inv s ->
+  post m s r s1 (srec minp (cur s) (alt s)).
+
+Definition same_point (s sl : st) : Prop := cur s = cur sl /\ sec s = sec sl /\ ust s = ust sl.
+
+Lemma same_point_inv s sl : same_point s sl -> inv sl -> inv s.
+Proof. intros (Hc & _ & Hu) Hi. unfold Base.inv in *. now rewrite Hc, Hu. Qed.
+
+Lemma same_point_rewind s sl s2 ext :
+  same_point s sl -> sec s2 = sec s ++ ext -> same_point (rewind s2 (save sl)) sl.
+Proof.
+  intros (Hc & Hs & Hu) H2. rewrite (rewind_save sl s2 ext) by (now rewrite <- Hs). repeat split.
+Qed.
+
+Lemma pratt_prefix_refines ctx sl (Hil : inv sl) : forall ops s, same_point s sl ->
+  match pratt_prefix spn run rec m ops ctx (save sl) (cur sl) s with
+  | PDone (Ok v) s1 => exists v' ems,
+      pratt_sprefix spn srun srec ops ctx (cur sl) (alt s) = SDone (Some (Some (v', cur s1, ems), alt s1)) /\
+      v = bindv m v' /\ sec s1 = sec sl ++ ems /\ ust s1 = ust_at (cur s1)
+  | PDone Err _ => False
+  | PDone _ _ => True
+  | PNext s1 => pratt_sprefix spn srun srec ops ctx (cur sl) (alt s) = SNext (alt s1) /\ same_point s1 sl
+  end.
+Proof.
+  induction ops as [|o ops IHo]; intros s Hsp; cbn [pratt_prefix pratt_sprefix]; [auto|].
+  destruct o as [r bp og k|bp og k|bp og k]; try (apply IHo; exact Hsp).
+  pose proof (same_point_inv _ _ Hsp Hil) as Hi. destruct Hsp as (Hc & Hse & Hu).
+  destruct (run m og ctx s) as [r1 s2] eqn:E1. use HR E1. rewrite Hc in P. destruct r1; auto.
+  - ok_elim P.
+    destruct (rec (2 * bp) s2) as [r2 s3] eqn:E2.
+    pose proof (Hrec _ _ _ _ E2 Hu0) as P2. destruct r2; auto.
+    + ok_elim P2. do 2 eexists. split; [reflexivity|]. repeat split; auto.
+      * subst. destruct m; reflexivity.
+      * now rewrite Hsec0, Hsec, Hse, app_assoc.
+    + err_elim P2.
+      assert (Hsp' : same_point (rewind s3 (save sl)) sl).
+      { eapply same_point_rewind with (s := s) (ext := ems ++ ext); [repeat split; auto|]. now rewrite Hsec0, Hsec, app_assoc. }
+      specialize (IHo _ Hsp'). rewrite alt_rewind in IHo. exact IHo.
+  - err_elim P.
+    assert (Hsp' : same_point (rewind s2 (save sl)) sl).
+    { eapply same_point_rewind with (s := s); [repeat split; auto|exact Hsec]. }
+    specialize (IHo _ Hsp'). rewrite alt_rewind in IHo. exact IHo.
+Qed.
+
+Lemma pratt_postfix_refines ctx minp start lhs lhs' sl (Hil : inv sl) (Hl : lhs = bindv m lhs') : forall ops s, same_point s sl ->
+  match pratt_postfix spn run m ops ctx minp (save sl) start lhs s with
+  | PDone (Ok v) s1 => exists v' ems,
+      pratt_spostfix spn srun ops ctx minp start lhs' (cur sl) (alt s) = SDone (Some (Some (v', cur s1, ems), alt s1)) /\
+      v = bindv m v' /\ sec s1 = sec sl ++ ems /\ ust s1 = ust_at (cur s1)
+  | PDone Err _ => False
+  | PDone _ _ => True
+  | PNext s1 => pratt_spostfix spn srun ops ctx minp start lhs' (cur sl) (alt s) = SNext (alt s1) /\ same_point s1 sl
+  end.
+Proof.
+  induction ops as [|o ops IHo]; intros s Hsp; cbn [pratt_postfix pratt_spostfix]; [auto|].
+  destruct o as [r bp og k|bp og k|bp og k]; try (apply IHo; exact Hsp).
+  destruct (minp <=? 2 * bp + 1); [|apply IHo; exact Hsp].
+  pose proof (same_point_inv _ _ Hsp Hil) as Hi. destruct Hsp as (Hc & Hse & Hu).
+  destruct (run m og ctx s) as [r1 s2] eqn:E1. use HR E1. rewrite Hc in P. destruct r1; auto.
+  - ok_elim P. do 2 eexists. split; [reflexivity|]. repeat split; auto.
+    + subst. destruct m; reflexivity.
+    + now rewrite Hsec, Hse.
+  - err_elim P.
+    assert (Hsp' : same_point (rewind s2 (save sl)) sl).
+    { eapply same_point_rewind with (s := s); [repeat split; auto|exact Hsec]. }
+    specialize (IHo _ Hsp'). rewrite alt_rewind in IHo. exact IHo.
+Qed.
+
+Lemma pratt_infix_refines ctx minp start lhs lhs' sl (Hil : inv sl) (Hl : lhs = bindv m lhs') : forall ops s, same_point s sl ->
+  match pratt_infix spn run rec m ops ctx minp (save sl) start lhs s with
+  | PDone (Ok v) s1 => exists v' ems,
+      pratt_sinfix spn srun srec ops ctx minp start lhs' (cur sl) (alt s) = SDone (Some (Some (v', cur s1, ems), alt s1)) /\
+      v = bindv m v' /\ sec s1 = sec sl ++ ems /\ ust s1 = ust_at (cur s1)
+  | PDone Err _ => False
+  | PDone _ _ => True
+  | PNext s1 => pratt_sinfix spn srun srec ops ctx minp start lhs' (cur sl) (alt s) = SNext (alt s1) /\ same_point s1 sl
+  end.
+Proof.
+  induction ops as [|o ops IHo]; intros s Hsp; cbn [pratt_infix pratt_sinfix]; [auto|].
+  destruct o as [r bp og k|bp og k|bp og k]; try (apply IHo; exact Hsp).
+  destruct (minp <=? lpow r bp); [|apply IHo; exact Hsp].
+  pose proof (same_point_inv _ _ Hsp Hil) as Hi. destruct Hsp as (Hc & Hse & Hu).
+  destruct (run m og ctx s) as [r1 s2] eqn:E1. use HR E1. rewrite Hc in P. destruct r1; auto.
+  - ok_elim P.
+    destruct (rec (rpow r bp) s2) as [r2 s3] eqn:E2.
+    pose proof (Hrec _ _ _ _ E2 Hu0) as P2. destruct r2; auto.
+    + ok_elim P2. do 2 eexists. split; [reflexivity|]. repeat split; auto.
+      * subst. destruct m; reflexivity.
+      * now rewrite Hsec0, Hsec, Hse, app_assoc.
+    + err_elim P2.
+      assert (Hsp' : same_point (rewind s3 (save sl)) sl).
+      { eapply same_point_rewind with (s := s) (ext := ems ++ ext); [repeat split; auto|]. now rewrite Hsec0, Hsec, app_assoc. }
+      specialize (IHo _ Hsp'). rewrite alt_rewind in IHo. exact IHo.
+  - err_elim P.
+    assert (Hsp' : same_point (rewind s2 (save sl)) sl).
+    { eapply same_point_rewind with (s := s); [repeat split; auto|exact Hsec]. }
+    specialize (IHo _ Hsp'). rewrite alt_rewind in IHo. exact IHo.
+Qed.
+
+End PrattLemmas.
+
+Lemma same_point_refl s : same_point s s.
+Proof. repeat split. Qed.
+
+Lemma pratt_go_S f m atom ops ctx minp s :
+  pratt_go spn run (S f) m atom ops ctx minp s =
+    match pratt_prefix spn run (pratt_go spn run f m atom ops ctx) m ops ctx (save s) (cur s) s with
+    | PDone (Ok v) s1 => pratt_loop spn run f m atom ops ctx minp (cur s) v s1
+    | PDone r s1 => (r, s1)
+    | PNext s1 =>
+        match run m atom ctx s1 with
+        | (Ok v, s2) => pratt_loop spn run f m atom ops ctx minp (cur s) v s2
+        | res => res
+        end
+    end.
+Proof. reflexivity. Qed.
+
+Lemma pratt_loop_S f m atom ops ctx minp start lhs s :
+  pratt_loop spn run (S f) m atom ops ctx minp start lhs s =
+    match pratt_postfix spn run m ops ctx minp (save s) start lhs s with
+    | PDone (Ok v) s1 => pratt_loop spn run f m atom ops ctx minp start v s1
+    | PDone r s1 => (r, s1)
+    | PNext s1 =>
+        match pratt_infix spn run (pratt_go spn run f m atom ops ctx) m ops ctx minp (save s) start lhs s1 with
+        | PDone (Ok v) s2 => pratt_loop spn run f m atom ops ctx minp start v s2
+        | PDone r s2 => (r, s2)
+        | PNext s2 => (Ok lhs, rewind s2 (save s))
+        end
+    end.
+Proof. reflexivity. Qed.
+
+Lemma pratt_sem_S f atom ops ctx minp p a :
+  pratt_sem spn srun (S f) atom ops ctx minp p a =
+    match pratt_sprefix spn srun (pratt_sem spn srun f atom ops ctx) ops ctx p a with
+    | SDone (Some (Some (v, p1, e1), a1)) => pratt_sloop spn srun f atom ops ctx minp p v e1 p1 a1
+    | SDone x => x
+    | SNext a1 =>
+        match srun atom ctx p a1 with
+        | Some (Some (v, p1, e1), a2) => pratt_sloop spn srun f atom ops ctx minp p v e1 p1 a2
+        | x => x
+        end
+    end.
+Proof. reflexivity. Qed.
+
+Lemma pratt_sloop_S f atom ops ctx minp start lhs acce p a :
+  pratt_sloop spn srun (S f) atom ops ctx minp start lhs acce p a =
+    match pratt_spostfix spn srun ops ctx minp start lhs p a with
+    | SDone (Some (Some (v, p1, e1), a1)) => pratt_sloop spn srun f atom ops ctx minp start v (acce ++ e1) p1 a1
+    | SDone x => x
+    | SNext a1 =>
+        match pratt_sinfix spn srun (pratt_sem spn srun f atom ops ctx) ops ctx minp start lhs p a1 with
+        | SDone (Some (Some (v, p1, e1), a2)) => pratt_sloop spn srun f atom ops ctx minp start v (acce ++ e1) p1 a2
+        | SDone x => x
+        | SNext a2 => Some (Some (lhs, p, acce), a2)
+        end
+    end.
+Proof. reflexivity. Qed.
+
+Lemma pratt_refines m atom ops ctx : forall fuel,
+  (forall minp s r s1, pratt_go spn run fuel m atom ops ctx minp s = (r, s1) -> inv s ->
+     post m s r s1 (pratt_sem spn srun fuel atom ops ctx minp (cur s) (alt s)))
+  /\
+  (forall minp s0 lhs lhs' acce s r s1,
+     pratt_loop spn run fuel m atom ops ctx minp (cur s0) lhs s = (r, s1) -> inv s ->
+     sec s = sec s0 ++ acce -> lhs = bindv m lhs' ->
+     post m s0 r s1 (pratt_sloop spn srun fuel atom ops ctx minp (cur s0) lhs' acce (cur s) (alt s))).
+Proof.
+  induction fuel as [|f [IHgo IHloop]].
+  { split; intros; cbn in *; match goal with H : (OutOfFuel, _) = _ |- _ => inv_pair H end; exact I. }
+  split.
+  - intros minp s r s1 H Hi. rewrite pratt_go_S in H. rewrite pratt_sem_S.
+    pose proof (pratt_prefix_refines m _ _ (IHgo) ctx s Hi ops s (same_point_refl s)) as Pp.
+    destruct (pratt_prefix spn run (pratt_go spn run f m atom ops ctx) m ops ctx (save s) (cur s) s) as [rp sp|sp].
+    + destruct rp; try (inv_pair H; exact I); [|contradiction].
+      destruct Pp as (v' & ems & -> & -> & Hsec & Hu).
+      eapply IHloop in H; eauto.
+    + destruct Pp as (-> & Hsp).
+      pose proof (same_point_inv _ _ Hsp Hi) as Hip. destruct Hsp as (Hc & Hse & Hu).
+      destruct (run m atom ctx sp) as [ra sa] eqn:Ea. use HR Ea. rewrite Hc in P.
+      destruct ra; try trivial_res H.
+      * ok_elim P. eapply IHloop in H; eauto. now rewrite Hsec, Hse.
+      * inv_pair H. err_elim P. eexists. split; [reflexivity|]. now rewrite Hsec, Hse.
+  - intros minp s0 lhs lhs' acce s r s1 H Hi Hse Hl. rewrite pratt_loop_S in H. rewrite pratt_sloop_S.
+    pose proof (pratt_postfix_refines m _ _ (IHgo) ctx minp (cur s0) lhs lhs' s Hi Hl ops s (same_point_refl s)) as Pp.
+    destruct (pratt_postfix spn run m ops ctx minp (save s) (cur s0) lhs s) as [rp sp|sp].
+    + destruct rp; try (inv_pair H; exact I); [|contradiction].
+      destruct Pp as (v' & ems & -> & -> & Hsec & Hu).
+      eapply IHloop in H; eauto. now rewrite Hsec, Hse, app_assoc.
+    + destruct Pp as (-> & Hsp).
+      pose proof (pratt_infix_refines m _ _ (IHgo) ctx minp (cur s0) lhs lhs' s Hi Hl ops sp Hsp) as Pi.
+      destruct (pratt_infix spn run (pratt_go spn run f m atom ops ctx) m ops ctx minp (save s) (cur s0) lhs sp) as [ri si|si].
+      * destruct ri; try (inv_pair H; exact I); [|contradiction].
+        destruct Pi as (v' & ems & -> & -> & Hsec & Hu).
+        eapply IHloop in H; eauto. now rewrite Hsec, Hse, app_assoc.
+      * destruct Pi as (-> & Hc & Hs2 & Hu). inv_pair H.
+        rewrite (rewind_save0 s si Hs2). do 3 eexists. split; [reflexivity|]. cbn. repeat split; auto.
 Qed.
 
 End LoopLemmas.
@@ -697,7 +900,7 @@ Proof.
       specialize (P2 Hi2). unfold reposition, save in P2. cbn [cur alt sec ust] in P2.
       destruct r2; try trivial_res H; inv_pair H.
       * ok_elim P2. cbn.
-        assert (Hrw : rewind s3 (save s2) = mkSt (cur s2) (sec s2) (alt s3) (ust s2)).
+        assert (Hrw : rewind s3 (save s2) = mkSt (cur s2) (sec s2) (alt s3) (ust s2) (memo s3)).
         { eapply rewind_save. exact Hsec0. }
         rewrite Hrw. fin_ok.
       * err_elim P2. cbn. fin_err.
@@ -822,8 +1025,8 @@ Proof.
       destruct r2; try trivial_res H; inv_pair H.
       * ok_elim P2. cbn. do 3 eexists. split; [reflexivity|]. stsimpl. rewrite Hsec0, app_assoc. repeat split; auto.
       * err_elim P2. cbn.
-        assert (Hrw : rewind (set_alt s3 (Some a0)) (save s) = mkSt (cur s) (sec s) (Some a0) (ust s)).
-        { eapply rewind_save. exact Hsec0. }
+        assert (Hrw : rewind (set_alt s3 (Some a0)) (save s) = mkSt (cur s) (sec s) (Some a0) (ust s) (memo s3)).
+        { exact (rewind_save s (set_alt s3 (Some a0)) _ Hsec0). }
         rewrite Hrw. exists []. cbn. rewrite app_nil_r. split; reflexivity.
   - (* RecoverSkipUntil *)
     destruct (go n m g1 ctx s) as [r1 s2] eqn:E1. use IH E1.
@@ -881,7 +1084,7 @@ Proof.
     destruct (go n Emit g1 ctx s) as [r1 s2] eqn:E1. use IH E1.
     destruct r1; try trivial_res H.
     + ok_elim P. cbn. subst v. cbn in H.
-      destruct (go n m g2 v' s2) as [r2 s3] eqn:E2. use IH E2.
+      destruct (go n m g2 (with_ctx ctx v') s2) as [r2 s3] eqn:E2. use IH E2.
       destruct r2; try trivial_res H; inv_pair H.
       * ok_elim P. cbn. fin_ok.
       * err_elim P. cbn. fin_err.
@@ -889,12 +1092,20 @@ Proof.
   - (* MapCtx *)
     exact (IH _ _ _ _ _ _ H Hinv).
   - (* JustCfg *)
-    unfold just_go in H. destruct (just_loop K toks spn (val_toks ctx) s) as [b s2] eqn:E.
+    unfold just_go in H. destruct (just_loop K toks spn (val_toks (cval ctx)) s) as [b s2] eqn:E.
     pose proof (just_loop_refines _ _ _ _ E Hinv) as P.
-    destruct (just_sem K toks spn (val_toks ctx) (cur s) (alt s)) as [[p1|] a1]; destruct P as (-> & P); inv_pair H.
+    destruct (just_sem K toks spn (val_toks (cval ctx)) (cur s) (alt s)) as [[p1|] a1]; destruct P as (-> & P); inv_pair H.
     + destruct P as (<- & <- & Hsec & Hu). do 3 eexists. split; [reflexivity|].
       rewrite Hsec, app_nil_r. repeat split; auto.
     + destruct P as (<- & Hsec). exists []. rewrite Hsec, app_nil_r. split; reflexivity.
+  - (* Memo *)
+    cbn [memo_on no_quirks negb] in H. exact (IH _ _ _ _ _ _ H Hinv).
+  - (* Rec *)
+    exact (IH _ _ _ _ _ _ H Hinv).
+  - (* Var *)
+    destruct (nth_error (crec ctx) k) as [a|]; [exact (IH _ _ _ _ _ _ H Hinv) | trivial_res H].
+  - (* Pratt *)
+    exact (proj1 (pratt_refines _ _ IH m g ops ctx n) _ _ _ _ H Hinv).
 Qed.
 
 End Refine.
